@@ -30,6 +30,13 @@ ASSUMPTIONS = ["data, thresholds and tolerances are dyadic (k/4) so every compar
                "+inf / -inf are valid, comparable values: contingency counts (theorems hold for every Fl) and the order relations / unequal "
                "values of discretisation (theorem disc_eq_specX, Spec.discX) cover them; only '==' / '!=' between two EQUAL infinities "
                "is outside the property's domain (notes/C08.md N-C08-1; model and implementation are still compared on it)",
+               "computed thresholds (k * 0.1, k / 3, np.linspace, magnitudes below 1e-12) with data on / one ulp around / on the decimal "
+               "rounding of the threshold are generated with tolerance None / 0 only: no float64 operation rounds there, the exact-rational "
+               "Spec value of the same doubles is the required result (Lean Spec in the oracle, translated model in the correspondence)",
+               "counts of ANY size: the quick tier checks that every observable stage of the count pipeline (maps tp/tn/fp/fn, counts, "
+               "table) accumulates in float64 / a 64-bit integer (exact to 2^53 pairs) and, when a narrower stage is seen, shows it on a "
+               "real 2 x (capacity/2 + 2) field; the 2^24 + 4 pair field itself (~1 GB, ~6 s on the unchanged tree) runs unconditionally "
+               "only in the thorough tier (oracle only; the Lean theorems already hold for lists of any length)",
                "Dataset inputs and dask arrays are not generated"]
 MANIFEST = dict(
     level="proof",
@@ -58,7 +65,9 @@ RULE = ("cases drawn from a dyadic pool with 50 % of data values placed on / wit
         "event thresholds (order relations only), all 12 mode spellings, thresholds 0 and negative for the event operator; the same functions "
         "and both contingency-manager routes on data stored as int64 / int32 / int8 / uint8 / bool / float32 (values exactly representable, "
         "incl. the dtype's extremes and the float32 neighbours of 0.1 / 0.3 / 0.7) with thresholds not representable in the dtype and "
-        "every tolerance, plus a 6 dtypes x 12 spellings x 2 tolerances grid; distinct = distinct "
+        "every tolerance, plus a 6 dtypes x 12 spellings x 2 tolerances grid; computed non-dyadic thresholds (k*0.1, k/3, linspace, < 1e-12) with "
+        "data exactly on / one ulp around / on the 12-decimal rounding of a threshold, tolerance none / 0, all 12 spellings, both functions and "
+        "the proportions; accumulator dtype of every count stage (+ a 2^24 + 4 pair constant field in the thorough tier); distinct = distinct "
         "canonical input; non-trivial = at least one non-NaN output and not in the malformed stream")
 
 STR2OP = {">=": "ge", ">": "gt", "<=": "le", "<": "lt", "==": "eq", "!=": "ne"}
@@ -354,6 +363,8 @@ def run_table_case(case):
             res["transform_counts"] = {k[:-6]: float(v) for k, v in tr.get_counts().items()}
             res["tables_route_counts"] = {k: float(v) for k, v in counts_of(man2).items()}
             res["tables_route_keep_a"] = {k: v.tolist() for k, v in counts_of(man2, preserve_dims=[fresh("a")]).items()}
+            res["count_dtypes"] = pipeline_dtypes(man)
+            res["count_dtypes"].update({"tables_route." + k: v for k, v in pipeline_dtypes(man2, maps_only=True).items()})
         return res
     except Exception as ex:  # noqa: BLE001
         return ("err", core.exc_class(ex) + ": " + str(ex)[:120])
@@ -415,6 +426,80 @@ def table_tags(case):
     if case.get("fdtype") or case.get("odtype"):
         t["dtype"] = (case.get("fdtype") or "float64") + "/" + (case.get("odtype") or "float64")
     return t
+
+
+# ----------------------------------------------------------------------------- computed (non-dyadic) thresholds
+# The relation is decided between the data and the threshold THAT WAS SUPPLIED: 3 * 0.1 = 0.30000000000000004 is a different
+# number from 0.3, and data 0.3 is below it.  Thresholds as users compute them (np.arange(n) * 0.1, k / 3, np.linspace, tiny
+# magnitudes) with data exactly on the threshold, one ulp either side of it, and on its 12- / 6- / 1-decimal rounding.  With
+# tolerance None / 0 nothing is rounded in float64: `comparison + 0 * factor` is the comparison itself, x - c is exact for
+# neighbouring doubles and is 0 only for x == c, so the exact-rational Spec value of the same doubles is the required result.
+def computed_threshold_pool():
+    pool = [float(v) for v in (np.arange(10) * 0.1)[1:]]                      # 0.30000000000000004, 0.6000000000000001, 0.7000000000000001
+    pool += [k / 3 for k in (1, 2, 4, 5, -1, -2)] + [k / 7 for k in (1, 2, 3, -3)]
+    pool += [float(v) for v in np.linspace(0, 1, 8)[1:-1]] + [float(v) for v in np.linspace(-1, 2, 11)[1:-1]]
+    pool += [2.5e-13, 1e-13, -3e-13, 7.5e-14, 4.9e-13, 1e-300]                # below any decimal rounding
+    pool += [0.1 + 0.2, 1.1 * 3, 100 * 1.1, 1e6 / 3, 1 - 1e-13, -(0.1 * 3)]
+    return sorted(set(pool))
+
+
+COMPUTED_POOL = computed_threshold_pool()
+
+
+def ulp_step(x, up, k=1):
+    for _ in range(k):
+        x = float(np.nextafter(x, math.inf if up else -math.inf))
+    return x
+
+
+def gen_computed_threshold_case(rng):
+    nthr = rng.choice([1, 1, 2, 3])
+    thr = sorted(set(rng.choice(COMPUTED_POOL) for _ in range(nthr)))
+    if rng.random() < 0.2:
+        thr = sorted(set(thr + [rng.choice([0.0, 0.25, -0.5, 1.0])]))      # mixed with a short literal
+    data = []
+    for _ in range(rng.randint(2, 6)):
+        r = rng.random()
+        t = rng.choice(thr)
+        if r < 0.25:
+            data.append(t)
+        elif r < 0.40:
+            data.append(ulp_step(t, rng.random() < 0.5, rng.choice([1, 1, 2, 5])))
+        elif r < 0.62:
+            data.append(float(round(t, rng.choice([12, 12, 12, 6, 1, 15]))))      # the short decimal next to the computed threshold
+        elif r < 0.70:
+            data.append(ulp_step(float(round(t, 12)), rng.random() < 0.5))
+        elif r < 0.78:
+            data.append(NAN)
+        elif r < 0.86:
+            data.append(rng.choice([0.0, t + 1e-12, t - 1e-12, t * (1 + 1e-13), -t]))
+        else:
+            data.append(core.dyadic(rng, -2, 2))
+    name = rng.choice(list(COMPL))
+    mode = {"k": "str", "v": OP2STR[name]} if rng.random() < 0.5 else {"k": "op", "v": name}
+    return {"fn": rng.choice(["binary", "binary", "binary", "comparative"]), "data": data, "comp": thr, "mode": mode,
+            "tol": rng.choice(["omit", None, 0, 0.0]), "scalar": len(thr) == 1 and rng.random() < 0.4, "malformed": None,
+            "batch": "discretise-computed-thresholds"}
+
+
+def computed_threshold_grid():
+    """12 spellings x {binary, comparative}: thresholds 3*0.1, 1/3, 2.5e-13 with data on / one ulp around / the 12-decimal rounding"""
+    thr = [2.5e-13, 0.1 * 3, 1 / 3]
+    data = [0.0, 2.5e-13, ulp_step(2.5e-13, False), 0.3, 0.1 * 3, ulp_step(0.1 * 3, True), round(1 / 3, 12), 1 / 3,
+            ulp_step(1 / 3, True), ulp_step(1 / 3, False), NAN]
+    out = []
+    for name in COMPL:
+        for kind in ("str", "op"):
+            for fn in ("binary", "comparative"):
+                mode = {"k": "str", "v": OP2STR[name]} if kind == "str" else {"k": "op", "v": name}
+                out.append({"fn": fn, "data": data, "comp": thr, "mode": mode, "tol": "omit" if kind == "str" else 0, "scalar": False,
+                            "malformed": None, "batch": "discretise-computed-thresholds"})
+    return out
+
+
+def non_dyadic(vals):
+    return any(isinstance(v, float) and math.isfinite(v) and not (v * 4).is_integer() for v in vals)
+
 
 
 # ----------------------------------------------------------------------------- storage dtype of the data
@@ -688,10 +773,12 @@ def check_events_dtype(ctx, batch, desc, spec):
                                            xr.DataArray(np.array(o, dtype=dt), dims=[fresh("k")]))
             cd = {k: float(v) for k, v in counts_of(man).items()}
             maps = {k: np.asarray(getattr(man, k).values, dtype=float).tolist() for k in ("tp", "tn", "fp", "fn")}
+            pdt = pipeline_dtypes(man)
     except Exception as ex:  # noqa: BLE001
         ctx.fail(batch, "property", "BinaryContingencyManager", "exception", desc, observed=core.exc_class(ex) + ": " + str(ex)[:100],
                  expected="a contingency manager", tags=tags)
         return False
+    cap_ok = check_count_capacity(ctx, batch, desc, pdt, tags)
     exp = {"tp": 0, "tn": 0, "fp": 0, "fn": 0, "total": 0}
     ok = True
     for i, (a, b) in enumerate(zip(f, o)):
@@ -712,12 +799,128 @@ def check_events_dtype(ctx, batch, desc, spec):
         ok = False
         ctx.fail(batch, "property", "BinaryContingencyManager.counts", "direct-count", desc, observed=cd,
                  expected=exp if spec is None else {k: spec[k] for k in exp}, tags=tags, theorem="threshold_counts_eq_direct")
-    return ok
+    return ok and cap_ok
 
 
 def events_spec_op(desc):
     """0/1 events: the event is 'value > 1/2' (direct count in the Lean spec)"""
     return {"op": "c08.countspec", "args": {"fcst": fls(desc["fcst_events"]), "obs": fls(desc["obs_events"]), "thr": "1/2", "op": "gt"}}
+
+
+
+# ----------------------------------------------------------------------------- counts of ANY size: accumulator capacity
+# tp + fp + fn + tn = number of valid pairs holds for lists of any length (theorem total_eq_valid_pairs).  The code adds
+# 0/1 maps with .sum(): the addition is exact as long as every partial sum is representable in the dtype numpy accumulates
+# in (float64: 2^53, float32: 2^24 — a 4096 x 4096 grid).  The counts are REPORTED as float64, so no stage of the pipeline
+# (the four maps the manager holds, the reduced counts, the table) may accumulate in anything narrower.  A narrower stage is
+# demonstrated with a real input: one cell holding capacity + 3 pairs (cheap for float32 / float16; the same field is run
+# unconditionally in the thorough tier only — on the unchanged tree it needs ~1 GB and ~6 s, too much for the quick tier).
+REQUIRED_CAPACITY = 2 ** 53
+_CAPACITY_WITNESS_DONE = set()
+
+
+def count_capacity(dtype_name):
+    """largest n such that every count 0..n is exact when 0/1 values of this dtype are added with .sum()"""
+    try:
+        acc = np.zeros(1, dtype=np.dtype(dtype_name)).sum().dtype      # the accumulator numpy uses for this dtype
+    except Exception:  # noqa: BLE001
+        return 0
+    if acc.kind == "f":
+        return 2 ** (np.finfo(acc).nmant + 1)
+    if acc.kind in "iu":
+        return int(np.iinfo(acc).max)
+    return 0
+
+
+def pipeline_dtypes(man, maps_only=False):
+    """dtype of every array of the count pipeline that is observable on a manager"""
+    d = {"map." + k: str(getattr(man, k).dtype) for k in ("tp", "tn", "fp", "fn")}
+    if maps_only:
+        return d
+    d.update({"counts." + k[:-6]: str(v.dtype) for k, v in man.get_counts().items()})
+    d["table"] = str(man.get_table().dtype)
+    d.update({"kept_counts." + k[:-6]: str(v.dtype) for k, v in man.transform(preserve_dims="all").get_counts().items()})
+    return d
+
+
+def big_events_desc(capacity, edtype="int8"):
+    """2 x m field of 0/1 events, all (0, 0) except one (1, 0) pair: tn = 2m - 1 = capacity + 3 (odd: not representable one
+    binade above `capacity`), each row's own count stays below the capacity"""
+    m = capacity // 2 + 2
+    return {"big_events": True, "n_a": 2, "n_b": m, "fcst_one_at": [0, 0], "edtype": edtype}
+
+
+def run_big_events(desc):
+    """-> (counts, kept-per-row counts, expected counts, expected per-row) of the constant field `desc`"""
+    from scores.categorical import BinaryContingencyManager
+    na, nb = desc["n_a"], desc["n_b"]
+    fe = np.zeros((na, nb), dtype=desc["edtype"])
+    i, j = desc["fcst_one_at"]
+    fe[i, j] = 1
+    oe = np.zeros((na, nb), dtype=desc["edtype"])
+    with np.errstate(all="ignore"):
+        man = BinaryContingencyManager(xr.DataArray(fe, dims=[fresh("a"), fresh("b")]), xr.DataArray(oe, dims=[fresh("a"), fresh("b")]))
+        cd = {k: float(v) for k, v in counts_of(man).items()}
+        kept = {k: v.tolist() for k, v in counts_of(man, preserve_dims=[fresh("a")]).items()}
+    del man, fe, oe
+    n = na * nb
+    exp = {"tp": 0.0, "tn": float(n - 1), "fp": 1.0, "fn": 0.0, "total": float(n)}
+    exp_kept = {"tp": [0.0] * na, "tn": [float(nb - (1 if r == i else 0)) for r in range(na)],
+                "fp": [1.0 if r == i else 0.0 for r in range(na)], "fn": [0.0] * na, "total": [float(nb)] * na}
+    return cd, kept, exp, exp_kept
+
+
+def check_big_events(ctx, batch, desc, tags=None):
+    """True iff the counts of the large constant field are the direct counts, partition the pairs and are additive over rows"""
+    tags = dict(tags or {}, size="large", dtype=desc["edtype"])
+    try:
+        cd, kept, exp, exp_kept = run_big_events(desc)
+    except Exception as ex:  # noqa: BLE001
+        ctx.fail(batch, "property", "BinaryContingencyManager", "exception", desc, observed=core.exc_class(ex) + ": " + str(ex)[:100],
+                 expected="a contingency manager", tags=tags)
+        return False
+    ok = True
+    if cd["tp"] + cd["tn"] + cd["fp"] + cd["fn"] != exp["total"] or cd["total"] != exp["total"]:
+        ok = False
+        ctx.fail(batch, "property", "BinaryContingencyManager.counts", "partition", desc, observed=cd, expected=exp, tags=tags,
+                 theorem="total_eq_valid_pairs")
+    if any(cd[k] != exp[k] for k in exp):
+        ok = False
+        ctx.fail(batch, "property", "BinaryContingencyManager.counts", "direct-count", desc, observed=cd, expected=exp, tags=tags,
+                 theorem="threshold_counts_eq_direct")
+    if any(kept[k] != exp_kept[k] for k in exp):
+        ok = False
+        ctx.fail(batch, "property", "BinaryContingencyManager.transform", "kept-direct-count:keep_a", desc, observed=kept,
+                 expected=exp_kept, tags=tags, theorem="threshold_counts_eq_direct")
+    for cell in exp:
+        if float(np.sum(kept[cell])) != cd[cell]:
+            ok = False
+            ctx.fail(batch, "property", "BinaryContingencyManager.transform", "kept-counts-do-not-sum:" + cell, desc,
+                     observed={"keep_a": kept[cell], "reduced": cd[cell]}, expected="rows sum to the reduced count", tags=tags,
+                     theorem="counts_flatten")
+            break
+    return ok
+
+
+def check_count_capacity(ctx, batch, desc, dtypes, tags):
+    """every stage of the count pipeline adds exactly up to REQUIRED_CAPACITY pairs; a narrower stage is first shown on a real
+    field of capacity + 3 pairs (once per run and stage dtype, only when affordable), then reported on the case at hand"""
+    narrow = {k: v for k, v in dtypes.items() if count_capacity(v) < REQUIRED_CAPACITY}
+    if not narrow:
+        return True
+    cap = min(count_capacity(v) for v in narrow.values())
+    key = tuple(sorted(set(narrow.values())))
+    if key not in _CAPACITY_WITNESS_DONE and 0 < cap <= 2 ** 25:
+        _CAPACITY_WITNESS_DONE.add(key)
+        big = big_events_desc(cap)
+        ctx.case("counts-beyond-accumulator-capacity", big)
+        check_big_events(ctx, "counts-beyond-accumulator-capacity", big, {"narrow_stage": ",".join(key)})
+    ctx.fail(batch, "property", "BinaryContingencyManager.counts", "count-accumulator-too-narrow", desc,
+             observed={"stages": narrow, "exact_up_to": cap},
+             expected="every stage (maps tp/tn/fp/fn, counts, table) adds 0/1 exactly up to 2^53 pairs (float64 or a 64-bit integer), "
+                      "as the float64 counts it reports; beyond `exact_up_to` pairs in one cell tp+fp+fn+tn != number of valid pairs",
+             tags=dict(tags, narrow_stage=",".join(key)), theorem="total_eq_valid_pairs")
+    return False
 
 
 
@@ -805,6 +1008,7 @@ def check_table_relations(ctx, batch, case, res):
                 ctx.fail(batch, "property", "BinaryContingencyManager.transform", "kept-counts-do-not-sum:" + cell, desc,
                          observed={keep: res[keep][cell]}, expected=c[cell], tags=tags, theorem="counts_flatten")
                 break
+    check_count_capacity(ctx, batch, desc, res.get("count_dtypes", {}), tags)
 
 
 # ----------------------------------------------------------------------------- correspondence
@@ -828,6 +1032,9 @@ def correspondence(ctx):
     # storage dtype of the data: the model value of an int64 / float32 7 is the number 7
     for _ in range(ctx.n(120, 1200)):
         cases.append(gen_dtype_disc_case(rng))
+    # computed (non-dyadic) thresholds, tolerance none / 0: the model compares the same doubles as exact rationals
+    for _ in range(ctx.n(50, 600)):
+        cases.append(gen_computed_threshold_case(rng))
     model = core.run_driver("C08", [disc_driver_op(c) for c in cases])
     for c, m in zip(cases, model):
         res = run_disc_case(c)
@@ -922,6 +1129,8 @@ def oracle_disc_case(ctx, batch, c, spec_rows, res=None):
     tags = {"mode": str(c["mode"]["v"]), "rel": rel, "fn": c["fn"]}
     if any(math.isinf(v) for v in list(c["data"]) + list(c["comp"])):
         tags["infinite"] = "yes"
+    if not c.get("dtype") and non_dyadic(list(c["comp"])):
+        tags["thresholds"] = "computed"
     if c.get("dtype"):
         tags["dtype"] = c["dtype"]
         if c.get("cdtype"):
@@ -1024,6 +1233,12 @@ def oracle(ctx, boost):
     for _ in range(ctx.n(60, 600) * mult):
         cases.append(gen_dtype_disc_case(rng, dt=rng.choice(["int64", "int32", "int8", "uint8", "bool"]), narrow=True))
     cases += narrow_witness_cases()
+    # thresholds as users compute them (k * 0.1, k / 3, linspace, below 1e-12): the SUPPLIED number decides, tolerance none / 0
+    for _ in range(ctx.n(150, 2500) * mult):
+        cases.append(gen_computed_threshold_case(rng))
+    cases += computed_threshold_grid()
+    ctx.exhaustive.append("oracle: 12 spellings x both functions x thresholds {2.5e-13, 3*0.1, 1/3} x data on / one ulp around / "
+                          "the 12-decimal rounding of each threshold")
     spec = core.run_driver("C08S", [spec_op(c) for c in cases])
     for c, s in zip(cases, spec):
         batch = "discretise-vs-definition"
@@ -1033,6 +1248,9 @@ def oracle(ctx, boost):
             if c["dtype"] == "float32" and rounding_sensitive(c):
                 ctx.tag("rounding-sensitive-skipped")
                 continue
+        if c.get("batch"):
+            batch = c["batch"]
+            ctx.tag("oracle-computed-thresholds:" + c["fn"])
         ctx.case(batch, disc_desc(c))
         if any(math.isinf(v) for v in list(c["data"]) + list(c["comp"])):
             ctx.tag("oracle-disc:infinite")
@@ -1075,6 +1293,22 @@ def oracle(ctx, boost):
         ctx.case("proportion-storage-dtype", desc)
         ctx.tag("oracle-proportion-dtype:" + c["dtype"])
         check_proportion_dtype(ctx, "proportion-storage-dtype", desc)
+    # 2c. proportions against computed thresholds (float64 data; share counted on the exact values)
+    for _ in range(ctx.n(40, 600) * mult):
+        c = gen_computed_threshold_case(rng)
+        ny = rng.randint(1, 3)
+        rows = [[rng.choice(c["data"]) for _ in range(ny)] for _ in c["data"]]
+        desc = {"data": rows, "thresholds": c["comp"], "mode": c["mode"], "tol": c["tol"], "reduce_dims": rng.choice([None, ["y"], ["x"], "all"]),
+                "dtype": "float64", "int_thr": False,
+                "pfn": rng.choice(["binary_discretise_proportion", "binary_discretise_proportion", "proportion_exceeding"])}
+        ctx.case("proportion-computed-thresholds", desc)
+        check_proportion_dtype(ctx, "proportion-computed-thresholds", desc)
+    # 2d. thorough tier: one cell holding 2^24 + 3 pairs (beyond what a single-precision accumulator adds exactly)
+    if ctx.thorough:
+        big = big_events_desc(2 ** 24)
+        ctx.case("counts-beyond-accumulator-capacity", big)
+        _CAPACITY_WITNESS_DONE.add(("float32",))
+        check_big_events(ctx, "counts-beyond-accumulator-capacity", big)
     # 3. contingency counts of a threshold event operator: direct counting (Lean Spec + Python), partition, additivity
     tcs = [gen_table_case(rng) for _ in range(ctx.n(150, 3000) * mult)]
     # forecasts / observations stored as int64, int32, int8, uint8, bool, float32
@@ -1148,6 +1382,8 @@ def replay(ctx, payload):
         if isinstance(v, str) and v in ("nan", "inf", "-inf"):
             return float(v)
         return v
+    if case.get("big_events"):
+        return not check_big_events(ctx2, "replay", case)
     if "fn" in case:
         c = {k: unfl(v) for k, v in case.items()}
         c["malformed"] = None
